@@ -17,9 +17,10 @@ import (
 func init() { Registry["C10"] = runC10 }
 
 // A lifecycle program: ops executed in order by the harness
-//   add:<h>:<pub> | run | waitrunning | rh | rhx<n> (n concurrent RunHandlers) | started:<h> | stop:<h> | waitstopped:<h>
-//   probe:<h> | cancel | run2 | gate:<h> (park RunHandlers right after Started(h) closes, call Stop/Stopped there)
-//   holdsub:<h> (the Subscribe call of h blocks until released) | release | slowsub (Subscribe calls take 3 ms)
+//
+//	add:<h>:<pub> | run | waitrunning | rh | rhx<n> (n concurrent RunHandlers) | started:<h> | stop:<h> | waitstopped:<h>
+//	probe:<h> | cancel | run2 | gate:<h> (park RunHandlers right after Started(h) closes, call Stop/Stopped there)
+//	holdsub:<h> (the Subscribe call of h blocks until released) | release | slowsub (Subscribe calls take 3 ms)
 type c10Prog struct {
 	Class string
 	Ops   []string
